@@ -321,6 +321,22 @@ func main() {
 			}
 		}
 		results := make([]string, len(jobs))
+		runOne := func(i int, j job) {
+			out := filepath.Join(scratch, fmt.Sprintf("det-%d.json", i))
+			os.Remove(out)
+			cmd := exec.Command(workerBin, "-prop", id, "-sites", sitesPath, "-seed", strconv.FormatUint(seed^0xd17e, 10), "-worker", strconv.Itoa(j.w),
+				"-evals", strconv.Itoa(detEvals), "-variant", j.lane.Variant, "-tier", *tier, "-out", out, "-maxfail", "1000000")
+			cmd.Env = workerEnv(j.gmp)
+			var eb bytes.Buffer
+			cmd.Stderr = &eb
+			err := cmd.Run()
+			var r workerReport
+			if b, rerr := os.ReadFile(out); rerr == nil && json.Unmarshal(b, &r) == nil {
+				results[i] = r.DetHash
+			} else {
+				results[i] = fmt.Sprintf("ERR: run=%v read=%v stderr=%s", err, rerr, tail(eb.String(), 5))
+			}
+		}
 		sem := make(chan struct{}, *workers)
 		var wg sync.WaitGroup
 		for i, j := range jobs {
@@ -329,22 +345,17 @@ func main() {
 			go func(i int, j job) {
 				defer wg.Done()
 				defer func() { <-sem }()
-				out := filepath.Join(scratch, fmt.Sprintf("det-%d.json", i))
-				cmd := exec.Command(workerBin, "-prop", id, "-sites", sitesPath, "-seed", strconv.FormatUint(seed^0xd17e, 10), "-worker", strconv.Itoa(j.w),
-					"-evals", strconv.Itoa(detEvals), "-variant", j.lane.Variant, "-tier", *tier, "-out", out, "-maxfail", "1000000")
-				cmd.Env = workerEnv(j.gmp)
-				var eb bytes.Buffer
-				cmd.Stderr = &eb
-				cmd.Run()
-				var r workerReport
-				if b, err := os.ReadFile(out); err == nil && json.Unmarshal(b, &r) == nil {
-					results[i] = r.DetHash
-				} else {
-					results[i] = "ERR:" + eb.String()
-				}
+				runOne(i, j)
 			}(i, j)
 		}
 		wg.Wait()
+		// a worker process that failed to run at all (no report) is retried once, alone
+		for i, j := range jobs {
+			if strings.HasPrefix(results[i], "ERR:") {
+				fmt.Printf("determinism self-test: process %d produced no report (%s); retrying once\n", i, results[i])
+				runOne(i, j)
+			}
+		}
 		for i := 0; i < len(jobs); i += 3 {
 			detRuns += 3
 			if results[i] != results[i+1] || results[i] != results[i+2] || strings.HasPrefix(results[i], "ERR:") {
